@@ -17,6 +17,7 @@ Families
   corpus real LiteX cores at seeded parameterisations under random stimulus.
 """
 import copy
+import json
 import random
 
 from dsim import prng, boot
@@ -131,6 +132,7 @@ class G:
         self.maxw = 40
         self.cat_targets = True
         self.arr_targets = True
+        self.slcat_targets = False
         self.wild = bool(wild)
 
     def const(self, hint=None, neg_ok=False):
@@ -329,7 +331,13 @@ class G:
             return ["sl", i, lo, r.randint(lo + 1, w)]
         if k < 0.9 and len(targets) > 1 and self.cat_targets:
             n = r.randint(2, min(3, len(targets)))
-            return ["cat", [["s", j] for j in r.sample(targets, n)]]
+            js = r.sample(targets, n)
+            if r.random() < 0.3 and self.slcat_targets:
+                # slice of a concatenation as target (lowered through a proxy in target context): listed finding C01-F17, not generated
+                tot = sum(self.sigs[j]["w"] for j in js)
+                lo = r.randrange(tot)
+                return ["slcat", js, lo, r.randint(lo + 1, tot)]
+            return ["cat", [["s", j] for j in js]]
         if len(targets) > 1 and self.arr_targets:
             n = r.randint(2, min(3, len(targets)))
             return ["arr", r.sample(targets, n), self.key(readable, n)]
@@ -365,6 +373,8 @@ def targets_of(st, acc):
         elif t[0] == "cat":
             for x in t[1]:
                 acc.add(x[1])
+        elif t[0] == "slcat":
+            acc.update(t[1])
         elif t[0] == "arr":
             if t[2][0] == "c":
                 acc.add(t[1][min(t[2][1], len(t[1]) - 1)])     # constant key: resolved when the design is built
@@ -617,6 +627,8 @@ def build_frag(scn):
             return sigs[t[1]][t[2]:t[3]]
         if t[0] == "cat":
             return Cat(*[tg(x) for x in t[1]])
+        if t[0] == "slcat":
+            return Cat(*[sigs[i] for i in t[1]])[t[2]:t[3]]
         if t[0] == "arr":
             return Array([sigs[i] for i in t[1]])[ex(t[2])]
         raise ValueError(t)
@@ -1128,6 +1140,8 @@ def _has_multi_cat_target(stmts):
         if st[0] == "=":
             if st[1][0] == "cat" and len({x[1] for x in st[1][1]}) > 1:
                 return True
+            if st[1][0] == "slcat" and len(set(st[1][1])) > 1:
+                return True
         elif st[0] == "if":
             if _has_multi_cat_target(st[2]) or _has_multi_cat_target(st[3]):
                 return True
@@ -1137,9 +1151,15 @@ def _has_multi_cat_target(stmts):
     return False
 
 
+def _has_slcat(stmts):
+    return '"slcat"' in json.dumps(stmts)
+
+
 def known_match(scn, v):
     fam = scn.get("family")
     cls = v["cls"]
+    if fam in ("frag", "wild", "exh") and cls in ("value_mismatch", "verilog_rejected") and _has_slcat([scn.get("comb", []), scn.get("sync", {})]):
+        return "C01-F17"
     if scn.get("glitch") and cls == "oscillation":
         return "C01-F6"
     if scn.get("t0_policy") == "strict" and cls == "value_mismatch":
